@@ -53,6 +53,8 @@ fn main() {
         "prims-vectors" => prims::cmd_vectors(rest),
         "prims-sweep-c07" => prims::cmd_sweep_c07(rest),
         "prims-sweep-c12" => prims::cmd_sweep_c12(rest),
+        "prims-sweep-c05" => prims::cmd_sweep_c05(rest),
+        "prims-sweep-c13" => prims::cmd_sweep_c13(rest),
         "inc-splits" => inchash::cmd_splits(rest),
         "inc-replay" => inchash::cmd_replay(rest),
         "inc-trace" => inchash::cmd_trace(rest),
